@@ -162,29 +162,36 @@ theorem sendLoop_kind (c : SendCfg) (log : List Entry) :
             | error e => simp [hpd] at h
             | ok probing =>
               simp only [hpd] at h
-              by_cases hp : probing = true
-              · simp only [hp, if_true] at h
+              by_cases hcn : (!stillConnected c.dropAfter
+                  (sendBurst c.dropAfter sent (render c.B c.term c.commit (Batch.chunked prev e))).2) = true
+              · simp only [hcn, if_true] at h
                 cases h
                 intro m hm
                 exact hall m (sendBurst_sub _ _ _ m hm)
-              · simp only [hp] at h
-                by_cases hb : budgetDone budget = true
-                · simp only [hb, if_true] at h
+              · simp only [hcn] at h
+                by_cases hp : probing = true
+                · simp only [hp, if_true] at h
                   cases h
                   intro m hm
                   exact hall m (sendBurst_sub _ _ _ m hm)
-                · simp only [hb] at h
-                  cases hr' : sendLoop c log fuel next' false false snap (budgetNext budget)
-                      (sendBurst c.dropAfter sent (render c.B c.term c.commit (Batch.chunked prev e))).2 true with
-                  | error e => simp [hr'] at h
-                  | ok r' =>
-                    simp [hr'] at h
-                    subst h
+                · simp only [hp] at h
+                  by_cases hb : budgetDone budget = true
+                  · simp only [hb, if_true] at h
+                    cases h
                     intro m hm
-                    simp only [List.mem_append] at hm
-                    rcases hm with hm | hm
-                    · exact hall m (sendBurst_sub _ _ _ m hm)
-                    · exact ih _ _ _ _ _ _ _ _ hr' m hm
+                    exact hall m (sendBurst_sub _ _ _ m hm)
+                  · simp only [hb] at h
+                    cases hr' : sendLoop c log fuel next' false false snap (budgetNext budget)
+                        (sendBurst c.dropAfter sent (render c.B c.term c.commit (Batch.chunked prev e))).2 true with
+                    | error e => simp [hr'] at h
+                    | ok r' =>
+                      simp [hr'] at h
+                      subst h
+                      intro m hm
+                      simp only [List.mem_append] at hm
+                      rcases hm with hm | hm
+                      · exact hall m (sendBurst_sub _ _ _ m hm)
+                      · exact ih _ _ _ _ _ _ _ _ hr' m hm
           | regular prev es =>
             simp only [] at h
             cases hpd : probeDecision c dec prev with
